@@ -179,15 +179,26 @@ Print Assumptions C18_call_at_limit_refused.
 
 (* 10. CFF2 blend (partial: the operator with given region scalars; the computation of the scalars
        from the ItemVariationStore belongs to C12 and is only modelled): n defaults, n groups of k
-       deltas and n are replaced by the n values  default_i + sum_j scalar_j * delta_(i,j). *)
+       deltas and n are replaced by the n values  default_i + sum_j scalar_j * delta_(i,j),
+       for every number of regions k >= 0. *)
 Theorem C18_blend_partial : forall e sc s base defaults deltas nv n,
   stk s = base ++ defaults ++ deltas ++ [nv] ->
-  try_as_u16 nv = Some n -> len defaults = n -> len deltas = n * len sc -> 0 < len sc ->
+  try_as_u16 nv = Some n -> len defaults = n -> len deltas = n * len sc ->
   len base + n <= max_stack e ->
   blend e sc s =
   COk (set_stk s (base ++ blend_vals (Z.to_nat (len sc)) sc defaults deltas)).
 Proof. exact blend_spec. Qed.
 Print Assumptions C18_blend_partial.
+
+(* k = 0 (an ItemVariationData that lists no regions; fixed: `rest.chunks(0)` used to panic):
+   n*(0+1) operands, no deltas, the n default values are the result. *)
+Theorem C18_blend_no_regions : forall e s base defaults nv,
+  stk s = base ++ defaults ++ [nv] ->
+  try_as_u16 nv = Some (len defaults) ->
+  len base + len defaults <= max_stack e ->
+  blend e [] s = COk (set_stk s (base ++ defaults)).
+Proof. exact blend_no_regions. Qed.
+Print Assumptions C18_blend_no_regions.
 
 Theorem C18_blend_value_partial : forall defaults k sc rest i, (i < length defaults)%nat ->
   nth i (blend_vals k sc defaults rest) 0 =
@@ -278,10 +289,14 @@ Example ex_seac :
        MoveTo 0 (of_int 11); LineTo (of_int 21) (of_int 11); Close].
 Proof. vm_compute. reflexivity. Qed.
 
-(* known finding (class panic, CFF2 blend with an ItemVariationData that has no regions):
-   `rest.chunks(0)` panics; outside the hypotheses of C18_blend_partial (0 < len sc) *)
-Example ex_blend_no_regions_panics :
-  run_glyph (mkEnv Debug KCFF2 false [] [None] [] [[140; 140; 16]] 0 CsISOAdobe true [0] [Some []]) = CPanic.
+(* CFF2 blend with an ItemVariationData that has no regions (fixed: `rest.chunks(0)` used to panic):
+   `1 1 blend` leaves the default 1; `1 1 blend 2 rmoveto` draws the contour at (1,2) *)
+Example ex_blend_no_regions :
+  run_glyph (mkEnv Debug KCFF2 false [] [None] [] [[140; 140; 16]] 0 CsISOAdobe true [0] [Some []]) = COk [].
+Proof. vm_compute. reflexivity. Qed.
+Example ex_blend_no_regions_draws :
+  run_glyph (mkEnv Debug KCFF2 false [] [None] [] [[140; 140; 16; 141; 21]] 0 CsISOAdobe true [0] [Some []]) =
+  COk [MoveTo (of_int 1) (of_int 2); Close].
 Proof. vm_compute. reflexivity. Qed.
 
 (* CFF2: 52 operands for hvcurveto (fixed: the scratch array had 48 entries) *)
